@@ -13,6 +13,8 @@ import Driver.CopyIn
 import Driver.Sse
 import Driver.ApiProto
 import Driver.ObuWalk
+import Driver.DecWavefront
+import Driver.Lifecycle
 
 def main (args : List String) : IO UInt32 := do
   match args with
@@ -31,4 +33,6 @@ def main (args : List String) : IO UInt32 := do
   | ["sse"] => Driver.sseMain; return 0
   | ["apiproto"] => Driver.apiProtoMain; return 0
   | ["obuwalk"] => Driver.obuWalkMain; return 0
+  | ["decwf"] => Driver.decwfMain; return 0
+  | ["lifecycle"] => Driver.lifecycleMain; return 0
   | _ => IO.eprintln "usage: svtmodel <subcommand>  (input on stdin, one op per line)"; return 2
